@@ -428,17 +428,43 @@ def r4_order(ctx, cfg):
                 bad.append("%s (line %d)" % (c["key"], t2["line"]))
     ctx.ob(R, key, "no-reordering-or-dropping-adapter", not bad,
            "order-changing / element-dropping call in execute_multi: %s" % bad, fn=f, sample="none of %d deny-listed names" % len(DENY_ADAPTERS))
-    # the value returned by the transaction closure is built from the execute results
+    # the value returned by the transaction closure is the list of the execute results, one per message, in order -
+    # form-agnostic (vlib/pipeline.py): `msgs.into_iter().map(|m| router.execute(..)).collect()` or a loop pushing each
+    # response - and a failing message ends the whole call with its error (never skipped, never turned into Ok)
+    from vlib import pipeline
     clos = [h for h in F.lexical(key) if h.kind == "closure" and h.parent == key]
     ok = False
     d = "?"
     if clos:
         h = clos[0]
-        o = P.local(h, 0)
-        d = fmt(o)
-        ok = contains(o, lambda x: x[0] == "closure" and x[1] == g.key) or contains(
-            o, lambda x: x[0] == "call" and x[1].endswith("CosmosRouter::execute"))
+        cs = []
+        for o in alts(peel(P.local(h, 0))):
+            o = peel(o)
+            if o[0] == "agg" and o[1].endswith("Result::Ok"):
+                cs += pipeline.contents(P, F, h, o[2][0][1])
+            elif o[0] == "call" and o[1] in pipeline.COLLECT:
+                cs += pipeline.contents(P, F, h, o)
+            elif o[0] == "call" and o[1].endswith("FromResidual::from_residual"):
+                continue
+            else:
+                cs.append(pipeline.Contribution("opaque", how=fmt(o)[:60]))
+        d = str(cs)[:200]
+        ok = len(cs) == 1 and cs[0].kind == "expr" and is_param(cs[0].src, "msgs") and not cs[0].conds and not cs[0].adapters
+        if ok:
+            e = peel(cs[0].expr)
+            if e[0] == "ok":
+                e = peel(e[1])
+            ok = e[0] == "call" and e[1].endswith("CosmosRouter::execute")
     ctx.ob(R, key, "responses-collected-from-execute", ok, "closure result is %s" % d, fn=f, sample=d[:200])
+    ef = q.error_fate(P, g, bid)
+    if ef["edges"]:
+        ok = not ef["continues"] and not ef["ok_reachable"]
+        d = "%d error edge(s); back into the loop: %s; can reach a non-error return: %s" % (len(ef["edges"]), ef["continues"], ef["ok_reachable"])
+    else:
+        use = P.closure_use(g) if g.kind == "closure" else None
+        ok = ef["returned_directly"] and use is not None and use[2]["callee"]["key"] == "std::iter::Iterator::map"
+        d = "Result of execute is the element collected into Result<Vec<_>, _>" if ok else "the Result of execute is neither inspected nor the collected element"
+    ctx.ob(R, key, "failed-message-fails-the-call", ok, "a failing message does not end execute_multi with its error: %s" % d, fn=g, line=t["line"], sample=d)
     # the entry point returns the result of transactional
     o = peel(P.local(f, 0))
     ctx.ob(R, key, "returns-transactional-result", o[0] == "call" and o[1] == TRANSACTIONAL,
